@@ -55,6 +55,12 @@ def gen_site_problem(rng):
     """1-4 process zones, ladders with intermediate levels that enable inter-zone recovery."""
     labels = rng.choice([["A"], ["A", "B"], ["A", "B", "C"], ["A", "B", "C", "D"], ["A/X", "A/Y", "B"]])
     pr = P.gen_problem(rng, labels=labels, util_kind=rng.choice(["none", "ladder", "ladder", "mixed", "outside"]))
+    if pr["utilities"] and rng.random() < 0.3:
+        # two different utilities leaving the same header: equal supply temperature, different return temperature
+        for u in rng.sample(pr["utilities"], k=min(len(pr["utilities"]), rng.choice([1, 2]))):
+            g = rng.choice([5.0, 10.0, 20.0, 40.0])
+            twin = dict(u, name=u["name"] + "b", t_target=u["t_target"] - g if u["type"] == "Hot" else u["t_target"] + g)
+            pr["utilities"].insert(rng.randrange(len(pr["utilities"]) + 1), twin)
     return pr
 
 
